@@ -193,7 +193,7 @@ class TLCResult(dict):
 _RE_STATES = re.compile(r'(\d+) states generated, (\d+) distinct states found')
 _RE_DEPTH = re.compile(r'The depth of the complete state graph search is (\d+)')
 _RE_INV = re.compile(r'Invariant (\S+) is violated')
-_RE_PROP = re.compile(r'(?:Action property|Temporal properties?) (\S*) ?(?:is|were) violated')
+_RE_PROP = re.compile(r'(?:Action property|Temporal propert(?:y|ies)) (\S*) ?(?:is|was|were) violated')
 
 
 def run_tlc(spec_dir, cfg, module=None, *, workers=None, simulate=None, depth=None, seed=None, env=None, timeout=3600,
